@@ -85,7 +85,8 @@ pub open spec fn rd_%(N)s(s0: RS, h: RH) -> Option<(%(G)s, nat, RS)> {
 }
 
 /// version byte 0: chunk 0 is the stream itself and no later chunk exists; k >= 1: header of
-/// k + 1 steps, then the chunks
+/// k + 1 steps, then the chunks.  Opaque: only the reader of this record looks inside
+#[verifier::opaque]
 pub open spec fn dec_%(N)s(s: Seq<u8>, t: Tbl) -> Dec<%(G)s> {
     if s.len() < 1 { Dec::Err } else if s[0] == 0 {
         match rd_%(N)s(RS { wins: Seq::new(%(k)d, |c: int| if c == 0 { s.skip(1) } else { Seq::<u8>::empty() }), idx: Seq::new(%(k)d, |c: int| -1int), t },
@@ -185,7 +186,7 @@ def gen_reader_full(X, d, steps, core, H, expanded):
     gv = '(' + ', '.join('self.%s.gv()' % f['name'] for f in lf) + (',' if len(lf) == 1 else '') + ')'
     db = H['norm_paths'](H['impl_fn'](expanded, 'BinaryDeserializer', X))
     db = annotate_reader(db, X, core.k)
-    db = db.replace('{', '{\n        broadcast use {lemma_rf_step, lemma_rof_step};\n        proof { reveal_strlits(); }', 1)
+    db = db.replace('{', '{\n        broadcast use {lemma_rf_step, lemma_rof_step};\n        proof { reveal_strlits(); reveal(dec_%s); }' % X, 1)
     trans = ''.join('\n        r is Ok ==> r->Ok_0.%s == (%s),' % (f['name'], f['transient']) for f in d['fields'] if f['transient'] is not None)
     return DE_FULL_TMPL % dict(X=X, G=G, specs=specs, gv=gv, body=db, trans_ens=('\n    ensures' + trans) if trans else '')
 
